@@ -44,6 +44,25 @@ static std::string judge_doc(const std::string& text, const MV* by_construction,
       if (!want) return "ORACLE-SELF-CHECK: generated existing path does not resolve in the model";
       if (!node) return "AtPointer misses existing path " + refjson::path_show(p);
       if (!eq_ordered(*want, walk(*node, &err))) return "AtPointer returned a different value at " + refjson::path_show(p);
+      // the variadic form (keys and indices as plain arguments) must reach the same node
+      {
+        const typename DocT::NodeType* vn = nullptr;
+        bool tried = true;
+        auto K = [&](size_t i) { return sonic_json::StringView(p[i].key.data(), p[i].key.size()); };
+        auto I = [&](size_t i) { return (size_t)p[i].idx; };
+        const DocT& cd = doc;
+        if (p.size() == 0) vn = cd.AtPointer();
+        else if (p.size() == 1) vn = p[0].is_key ? cd.AtPointer(K(0)) : cd.AtPointer(I(0));
+        else if (p.size() == 2) {
+          if (p[0].is_key && p[1].is_key) vn = cd.AtPointer(K(0), K(1));
+          else if (p[0].is_key) vn = cd.AtPointer(K(0), I(1));
+          else if (p[1].is_key) vn = cd.AtPointer(I(0), K(1));
+          else vn = cd.AtPointer(I(0), I(1));
+        } else if (p.size() == 3 && !p[0].is_key && p[1].is_key && !p[2].is_key) vn = cd.AtPointer(I(0), K(1), I(2));
+        else if (p.size() == 3 && p[0].is_key && !p[1].is_key && p[2].is_key) vn = cd.AtPointer(K(0), I(1), K(2));
+        else tried = false;
+        if (tried && vn != node) return "variadic AtPointer reaches another node than the JsonPointer form at " + refjson::path_show(p);
+      }
     }
   }
   return "";
